@@ -132,21 +132,21 @@ theorem Inv.fresh (res : Res) (m0 : Content) : Inv res m0 { model := m0, memo :=
 
 theorem computeArgs_spec {res : Res} {m0 : Content} {st st1 : St} {T : List Table}
     (wf : WF res m0) (hi : Inv res m0 st) (h : computeArgs res st = .ok (T, st1)) :
-    specAllArgs res m0 = .ok T ∧ Inv res m0 st1 ∧ st1.memo = T := by
+    specAllArgs res m0 = .ok T ∧ Inv res m0 st1 ∧ st1.memo = T ∧ st1.model = st.model := by
   unfold computeArgs at h
   split at h
   · rename_i hne
     cases h
     rcases hi.memo with hm | hm
     · simp [hm] at hne
-    · exact ⟨hm, hi, rfl⟩
+    · exact ⟨hm, hi, rfl, rfl⟩
   · split at h
     · cases h
     · rename_i tabs c hl
       cases h
-      obtain ⟨hz, hc⟩ := computeLoop_spec res.rawVars res.rawPars st.model T c hi.model
+      obtain ⟨hz, _⟩ := computeLoop_spec res.rawVars res.rawPars st.model T c hi.model
         wf.covers wf.plainOnly wf.nodup hl
-      exact ⟨hz, ⟨hc, .inr hz⟩, rfl⟩
+      exact ⟨hz, ⟨hi.model, .inr hz⟩, rfl, rfl⟩
 
 /-- changing the model only: the invariant survives any numeric update of plain parameters -/
 theorem Inv.setPars {res : Res} {m0 : Content} {st : St} {p : Pars} {c : Content}
@@ -185,12 +185,12 @@ theorem getArgsV_spec {res : Res} {m0 : Content} {k0 : Cache} {st st' : St} {f :
     {n : Norm} {cc : Bool} {v : View}
     (wf : WF res m0) (hm0 : createCache m0 = .ok k0) (hi : Inv res m0 st)
     (h : getArgsV res f n cc st = .ok (v, st')) :
-    specArgsView res m0 f n cc = .ok v ∧ Inv res m0 st' := by
+    specArgsView res m0 f n cc = .ok v ∧ Inv res m0 st' ∧ st'.model = st.model := by
   unfold getArgsV at h
   split at h
   · cases h
   · rename_i T st1 hca
-    obtain ⟨hs, hi1, _⟩ := computeArgs_spec wf hi hca
+    obtain ⟨hs, hi1, _, hmod⟩ := computeArgs_spec wf hi hca
     split at h
     · cases h
     · rename_i sel hsel
@@ -199,7 +199,7 @@ theorem getArgsV_spec {res : Res} {m0 : Content} {k0 : Cache} {st st' : St} {f :
       · rename_i v' hv
         cases h
         obtain ⟨names, hn, hm⟩ := selectData_spec hm0 hi1.model hsel
-        refine ⟨?_, hi1⟩
+        refine ⟨?_, hi1, hmod⟩
         unfold specArgsView specSelected
         rw [hs]; simp only
         rw [hn]; simp only
